@@ -135,7 +135,7 @@ def aslist_model(trusted):
 
 def make_app(case):
     """the real application of a `view` case (cached by configuration)"""
-    key = json.dumps([case['explicit'], case['kind'], case['defaults'], case['storage'], case['trusted'], case.get('trusted_as', 'list')], sort_keys=True)
+    key = json.dumps([case['explicit'], case['kind'], case['defaults'], case['storage'], case['trusted'], case.get('trusted_as', 'list'), case.get('vopts')], sort_keys=True)
     if key in _apps:
         return _apps[key]
     from pyramid.config import Configurator
@@ -165,9 +165,28 @@ def make_app(case):
                                         safe_methods=tuple(d['safe']), check_origin=d['check_origin'],
                                         allow_no_origin=d['allow_no_origin'], callback=CALLBACKS[d['callback']])
 
-    def body(context, request):
+    vopts = case.get('vopts') or {}
+
+    def mark(request):
         request.environ['verif.ran'] = request.environ.get('verif.ran', 0) + 1
+        if vopts.get('renderer') == 'json':
+            return {'ran': 1}
+        if vopts.get('renderer') == 'string':
+            return 'ran'
         return Response('ran')
+
+    def body(context, request):
+        return mark(request)
+
+    class BodyClass:
+        def __init__(self, context, request):
+            self.request = request
+
+        def meth(self):
+            return mark(self.request)
+
+    if vopts.get('attr'):
+        body = BodyClass
 
     def raiser(context, request):
         raise Boom()
@@ -180,13 +199,51 @@ def make_app(case):
             request.session['other'] = 1
         return Response('primed')
 
-    config.add_route('p', '/p')
+    if not (case['kind'] == 'normal' and (case.get('vopts') or {}).get('no_route')):
+        config.add_route('p', '/p')
     config.add_route('prime', '/_prime')
     config.add_view(prime, route_name='prime', require_csrf=False)
     kw = {}
     if case['explicit'] is not None or case.get('pass_none', True):
         kw['require_csrf'] = case['explicit']
-    if case['kind'] == 'normal':
+    # the OTHER view options csrf_view can see in info.options / the predicates (the verdict must not depend on them)
+    if 'request_method' in vopts:
+        rm = vopts['request_method']
+        kw['request_method'] = tuple(rm) if isinstance(rm, list) else rm
+    if vopts.get('xhr'):
+        kw['xhr'] = True
+    if vopts.get('attr'):
+        kw['attr'] = 'meth'
+    if vopts.get('decorator'):
+        def passthrough(view):
+            def decorated(context, request):
+                return view(context, request)
+            return decorated
+        kw['decorator'] = passthrough
+    if vopts.get('renderer'):
+        kw['renderer'] = vopts['renderer']
+    if vopts.get('permission'):
+        kw['permission'] = 'view'
+    if vopts.get('http_cache'):
+        kw['http_cache'] = 3600
+    if vopts.get('mapper'):
+        class PlainMapper:
+            def __init__(self, **kwargs):
+                pass
+
+            def __call__(self, view):
+                def mapped(context, request):
+                    return view(context, request)
+                return mapped
+        kw['mapper'] = PlainMapper
+    if vopts.get('wrapper'):
+        def wrap(context, request):
+            return request.wrapped_response
+        kw['wrapper'] = 'wrap'
+        config.add_view(wrap, name='wrap', require_csrf=False)
+    if case['kind'] == 'normal' and vopts.get('no_route'):
+        config.add_view(body, name='p', **kw)          # traversal: /p -> view name 'p' on the default root
+    elif case['kind'] == 'normal':
         config.add_view(body, route_name='p', **kw)
     elif case['kind'] == 'exc_only':
         config.add_view(raiser, route_name='p', require_csrf=False)
@@ -786,7 +843,8 @@ ODD_ORIGINS = ['null', 'NULL', 'https://[', 'https://]', 'https://[::1]', 'https
                'http://example.com', 'https+x://example.com', '1https://example.com', 'https ://example.com', 'https://exam ple.com', '', ' ', 'https://example.com;x',
                'https://\u0131.example', 'https://\u212a.example']
 METHODS = ['POST', 'POST', 'POST', 'PUT', 'PATCH', 'DELETE', 'GET', 'HEAD', 'OPTIONS', 'TRACE', 'post', 'FOO', 'PROPFIND', '']
-SAFE_SETS = [DEFAULT_SAFE, DEFAULT_SAFE, [], ['GET'], ['POST'], ['GET', 'POST'], DEFAULT_SAFE + ['DELETE'], ['get'], ['TRACE', 'OPTIONS', 'HEAD', 'GET']]
+SAFE_SETS = [DEFAULT_SAFE, DEFAULT_SAFE, [], [], ['GET'], ['GET', 'HEAD'], ['get', 'head'], ['POST'], ['GET', 'POST'], DEFAULT_SAFE + ['DELETE'], DEFAULT_SAFE + ['POST', 'PUT'],
+             ['get'], ['TRACE', 'OPTIONS', 'HEAD', 'GET'], ['OPTIONS']]
 HEADER_NAMES = ['X-CSRF-Token', 'X-CSRF-Token', 'X-CSRF-Token', 'x-csrf-token', 'X_CSRF_TOKEN', 'X-Other', None, '', 'X-Tok']
 TOKEN_NAMES = ['csrf_token', 'csrf_token', 'csrf_token', 'tok', None, '', '\u00fcn\u00ef', 'csrf_token ']
 STORED = ['abc123', '0123456789abcdef0123456789abcdef', 'Tok', 't\u00f6k\u20acn', '\U0001f600', '', None, 'a', 'abc123 ', '\u00e9', '0' * 40, 'null']
@@ -977,6 +1035,67 @@ def gen_defaults(rng):
             'check_origin': rng.random() < 0.8, 'allow_no_origin': rng.random() < 0.35, 'callback': rng.choice(CALLBACK_KINDS)}
 
 
+VOPT_FLAGS = ['xhr', 'attr', 'decorator', 'permission', 'http_cache', 'wrapper', 'mapper', 'no_route']
+PRED_METHODS = ['GET', 'HEAD', 'OPTIONS', 'TRACE', 'POST', 'PUT', 'DELETE', 'PATCH']
+
+
+def admitted_methods(vopts):
+    """methods the view's request_method predicate lets through (add_view adds HEAD to GET); None = no predicate"""
+    rm = (vopts or {}).get('request_method')
+    if rm is None:
+        return None
+    ms = [rm] if isinstance(rm, str) else list(rm)
+    if 'GET' in ms and 'HEAD' not in ms:
+        ms.append('HEAD')
+    return ms
+
+
+def gen_vopts(rng, kind):
+    v = {}
+    if rng.random() < 0.6:
+        k = rng.choice([1, 1, 1, 2, 3])
+        ms = rng.sample(PRED_METHODS, k)
+        v['request_method'] = ms[0] if k == 1 and rng.random() < 0.7 else ms
+    for f in rng.sample(VOPT_FLAGS, rng.choice([0, 0, 1, 1, 2])):
+        v[f] = True
+    if rng.random() < 0.2:
+        v['renderer'] = rng.choice(['json', 'string'])
+    if v.get('mapper'):
+        v.pop('attr', None)
+    if kind != 'normal':
+        for f in ('no_route', 'wrapper', 'permission'):
+            v.pop(f, None)
+    return v
+
+
+def apply_vopts(rng, case):
+    """make the request one the view's predicates admit"""
+    v = case.get('vopts') or {}
+    ms = admitted_methods(v)
+    if ms is not None and case['req']['method'] not in ms:
+        case['req']['method'] = rng.choice(ms)
+    if v.get('xhr'):
+        case['req']['environ']['HTTP_X_REQUESTED_WITH'] = 'XMLHttpRequest'
+
+
+def vopts_admit(case):
+    v = case.get('vopts') or {}
+    if not isinstance(v, dict) or any(k not in VOPT_FLAGS + ['request_method', 'renderer'] for k in v):
+        return False
+    ms = admitted_methods(v)
+    if ms is not None and (not ms or case['req']['method'] not in ms or any(m not in PRED_METHODS for m in ms)):
+        return False
+    if v.get('xhr') and case['req']['environ'].get('HTTP_X_REQUESTED_WITH') != 'XMLHttpRequest':
+        return False
+    if v.get('renderer') not in (None, 'json', 'string') or any(v.get(f) not in (None, True) for f in VOPT_FLAGS):
+        return False
+    if v.get('mapper') and v.get('attr'):
+        return False
+    if case['kind'] != 'normal' and any(v.get(f) for f in ('no_route', 'wrapper', 'permission')):
+        return False
+    return True
+
+
 def gen_view_case(rng):
     d = gen_defaults(rng)
     trusted = gen_trusted(rng)
@@ -989,8 +1108,12 @@ def gen_view_case(rng):
         aim_to_pass(rng, req, aslist_model(trusted), dd['token'], dd['header'], storage)
     if storage == 'legacy' and req['stored'] is None and not re.fullmatch(r'[0-9a-f]{40}', req['fresh']):
         req['fresh'] = 'f' * 40
-    return {'op': 'view', 'explicit': explicit, 'kind': kind, 'defaults': d, 'storage': storage, 'trusted': trusted,
+    case = {'op': 'view', 'explicit': explicit, 'kind': kind, 'defaults': d, 'storage': storage, 'trusted': trusted,
             'trusted_as': rng.choice(['list', 'list', 'nl', 'sp']), 'req': req}
+    if kind != 'exc_api' and rng.random() < 0.5:
+        case['vopts'] = gen_vopts(rng, kind)
+        apply_vopts(rng, case)
+    return case
 
 
 def gen_origin_case(rng):
@@ -1058,6 +1181,7 @@ def gen_appseq_case(rng):
     cfg = gen_view_case(rng)
     cfg['explicit'] = True
     cfg['kind'] = 'normal'
+    cfg.pop('vopts', None)
     n = rng.choice([2, 3])
     dd = cfg['defaults'] or {'token': 'csrf_token', 'header': 'X-CSRF-Token'}
     reqs = [gen_req(rng, aslist_model(cfg['trusted']), dd['token'], dd['header'], cfg['storage'], want_https='https', method='POST') for _ in range(n)]
@@ -1103,6 +1227,8 @@ def record(dist, case, got):
         bump(dist['view_kind'], case['kind'])
         bump(dist['explicit'], str(case['explicit']))
         bump(dist['method'], case['req']['method'])
+        for k in (case.get('vopts') or {'none': 1}):
+            bump(dist['view_options'], k)
     elif op == 'origin':
         bump(dist['origin_outcome'], str(got['out']))
         o, ref = picked_origin(case['req'])
@@ -1120,7 +1246,7 @@ def record(dist, case, got):
 
 
 def new_dist():
-    return {k: {} for k in ('ops', 'view_outcome', 'view_statement', 'storage', 'view_kind', 'explicit', 'method', 'origin_outcome', 'origin_source',
+    return {k: {} for k in ('view_options', 'ops', 'view_outcome', 'view_statement', 'storage', 'view_kind', 'explicit', 'method', 'origin_outcome', 'origin_source',
                             'token_outcome', 'seq_len', 'seq_passes', 'urlparse', 'appseq_outcomes')}
 
 
@@ -1155,6 +1281,8 @@ def valid_case(c):
     if op == 'view':
         d = c['defaults']
         if d is not None and d.get('noargs') and {k: v for k, v in d.items()} != NOARGS_DEFAULTS:
+            return False
+        if c.get('vopts') is not None and not vopts_admit(c):
             return False
         return (c['kind'] in ('normal', 'exc_only', 'exc_ctx', 'exc_api') and c['storage'] in ('legacy', 'session', 'cookie')
                 and c.get('trusted_as', 'list') in ('list', 'nl', 'sp') and vreq(c['req']) and (d is None or d['callback'] in CALLBACKS)
@@ -1203,6 +1331,7 @@ def run(ctx):
     corpus = [c for _, c in ctx.corpus()]
     cases = list(corpus) + [gen_case(rng) for _ in range(n)]
     cases += boundary_origin_cases()
+    cases += boundary_pred_cases()
     cases += boundary_cases()[: ctx.n(400, 100000)]
     minputs = [to_model(c) for c in cases]
     idx = [i for i, m in enumerate(minputs) if m is not None]
@@ -1299,6 +1428,29 @@ def boundary_cases():
     return out
 
 
+def boundary_pred_cases():
+    """small scope: safe_methods cube x {no predicate, request_method = each of GET HEAD OPTIONS TRACE POST} x the methods the
+    predicate admits x {no token, held token in the header} x {explicit True, default}"""
+    out = []
+    for safe in (DEFAULT_SAFE, [], ['GET', 'HEAD'], ['get', 'head'], DEFAULT_SAFE + ['POST'], ['OPTIONS']):
+        for pred in (None, 'GET', 'HEAD', 'OPTIONS', 'TRACE', 'POST', ['GET', 'POST']):
+            vopts = {} if pred is None else {'request_method': pred}
+            for method in (admitted_methods(vopts) or ['GET', 'HEAD', 'OPTIONS', 'TRACE', 'POST']):
+                for explicit in (True, None):
+                    for tok in (None, 'abc123'):
+                        env = {'HTTP_HOST': 'example.com'}
+                        if tok:
+                            env['HTTP_X_CSRF_TOKEN'] = tok
+                        d = {'require': True, 'token': 'csrf_token', 'header': 'X-CSRF-Token', 'safe': list(safe), 'check_origin': True,
+                             'allow_no_origin': False, 'callback': None}
+                        c = {'op': 'view', 'explicit': explicit, 'kind': 'normal', 'defaults': d, 'storage': 'session', 'trusted': [], 'trusted_as': 'list',
+                             'req': {'method': method, 'scheme': 'http', 'environ': env, 'form': [], 'query': [], 'stored': 'abc123', 'fresh': 'f' * 40}}
+                        if vopts:
+                            c['vopts'] = dict(vopts)
+                        out.append(c)
+    return out
+
+
 def boundary_origin_cases():
     """trusted list x header source x value, for check_csrf_origin directly"""
     out = []
@@ -1332,7 +1484,7 @@ def search(ctx):
         if v and not v.get('finding'):
             viol.append(v)
     exhaustive = True
-    for case in boundary_origin_cases() + boundary_cases():
+    for case in boundary_pred_cases() + boundary_origin_cases() + boundary_cases():
         n += 1
         _, _, v = safe_check(case, None)
         if v and not v.get('finding'):
